@@ -29,6 +29,7 @@ import (
 //vsym:stub os.WriteFile = WriteFile
 //vsym:stub os.Open = Open
 //vsym:stub os.Create = Create
+//vsym:stub os.OpenFile = OpenFile
 //vsym:stub os.CreateTemp = CreateTemp
 //vsym:stub os.MkdirTemp = MkdirTemp
 //vsym:stub os.MkdirAll = MkdirAll
@@ -65,9 +66,12 @@ type Node struct {
 }
 
 type Op struct {
-	Kind string // stat lstat readdir read open create createtemp write close mkdir remove removeall rename chmod symlink
-	Path string
-	To   string
+	Kind  string // stat lstat readdir read open create openfile createtemp write close mkdir remove removeall rename chmod symlink fileread
+	Path  string
+	To    string
+	Ret   string // createtemp: the name created
+	Flags int    // openfile
+	Data  []byte // write / writefile: the bytes written
 }
 
 type handle struct {
@@ -76,6 +80,7 @@ type handle struct {
 	closed bool
 	write  bool
 	off    int
+	overwrite bool // opened without O_TRUNC: writes replace the content from the start
 }
 
 type State struct {
@@ -83,7 +88,7 @@ type State struct {
 	Log     []Op
 	handles map[*os.File]*handle
 	serial  int
-	tempSeq int
+	TempSeq int
 	// fault injection: fail the n-th operation of a kind (1-based), 0 = never
 	FailKind string
 	FailAt   int
@@ -142,7 +147,7 @@ func (s *State) log(kind, path, to string) error {
 	if s.quiet > 0 {
 		return nil
 	}
-	s.Log = append(s.Log, Op{kind, path, to})
+	s.Log = append(s.Log, Op{Kind: kind, Path: path, To: to})
 	s.count[kind]++
 	if s.FailKind == kind && s.FailAt == s.count[kind] {
 		return &fs.PathError{Op: kind, Path: path, Err: syscall.EIO}
@@ -403,6 +408,40 @@ func createAt(op, name string, perm fs.FileMode, excl bool) (*os.File, error) {
 	return FS.newHandle(f, name, true), nil
 }
 
+// OpenFile: the flag combinations the cache code could use. Without O_TRUNC an existing file keeps its
+// content and is overwritten from the start.
+func OpenFile(name string, flag int, perm fs.FileMode) (*os.File, error) {
+	if err := FS.log("openfile", name, ""); err != nil {
+		return nil, err
+	}
+	if FS.quiet == 0 {
+		FS.Log[len(FS.Log)-1].Flags = flag
+	}
+	if flag&(os.O_WRONLY|os.O_RDWR) == 0 {
+		n, _, _, err := FS.walk("open", name, true, 0)
+		if err != nil {
+			return nil, err
+		}
+		if n == nil {
+			return nil, perr("open", name, syscall.ENOENT)
+		}
+		return FS.newHandle(n, name, false), nil
+	}
+	n, _, _, err := FS.walk("open", name, true, 0)
+	if err != nil {
+		return nil, err
+	}
+	if n != nil && flag&os.O_TRUNC == 0 && flag&os.O_EXCL == 0 {
+		h := FS.newHandle(n, name, true)
+		FS.handles[h].overwrite = true
+		return h, nil
+	}
+	if n == nil && flag&os.O_CREATE == 0 {
+		return nil, perr("open", name, syscall.ENOENT)
+	}
+	return createAt("open", name, perm&0o755, flag&os.O_EXCL != 0)
+}
+
 func Create(name string) (*os.File, error) {
 	if err := FS.log("create", name, ""); err != nil {
 		return nil, err
@@ -438,8 +477,11 @@ func CreateTemp(dir, pattern string) (*os.File, error) {
 	if i := strings.LastIndex(pattern, "*"); i >= 0 {
 		prefix, suffix = pattern[:i], pattern[i+1:]
 	}
-	FS.tempSeq++
-	name := filepath.Join(dir, prefix+itoa(1000000+FS.tempSeq)+suffix)
+	FS.TempSeq++
+	name := filepath.Join(dir, prefix+itoa(1000000+FS.TempSeq)+suffix)
+	if FS.quiet == 0 && len(FS.Log) > 0 {
+		FS.Log[len(FS.Log)-1].Ret = name
+	}
 	return createAt("open", name, 0o600, true)
 }
 
@@ -447,8 +489,8 @@ func MkdirTemp(dir, pattern string) (string, error) {
 	if dir == "" {
 		dir = "/tmp"
 	}
-	FS.tempSeq++
-	name := filepath.Join(dir, strings.TrimSuffix(pattern, "*")+itoa(1000000+FS.tempSeq))
+	FS.TempSeq++
+	name := filepath.Join(dir, strings.TrimSuffix(pattern, "*")+itoa(1000000+FS.TempSeq))
 	return name, MkdirAll(name, 0o700)
 }
 
@@ -463,6 +505,14 @@ func WriteFile(name string, data []byte, perm fs.FileMode) error {
 	h := FS.handles[f]
 	h.node.Data = data
 	h.closed = true
+	if FS.quiet == 0 {
+		for i := len(FS.Log) - 1; i >= 0; i-- {
+			if FS.Log[i].Kind == "writefile" {
+				FS.Log[i].Data = data
+				break
+			}
+		}
+	}
 	return nil
 }
 
@@ -645,7 +695,11 @@ func FileWrite(f *os.File, b []byte) (int, error) {
 	if !h.write {
 		return 0, perr("write", h.name, syscall.EBADF)
 	}
-	if h.node.Data == nil {
+	if FS.quiet == 0 {
+		FS.Log[len(FS.Log)-1].Data = b
+	}
+	if h.node.Data == nil || h.overwrite {
+		h.overwrite = false
 		h.node.Data = b // keeps an abstract document attached to b
 	} else {
 		h.node.Data = append(h.node.Data, b...)
@@ -660,6 +714,9 @@ func FileRead(f *os.File, b []byte) (int, error) {
 	}
 	if h.node.Kind == KindDir {
 		return 0, perr("read", h.name, syscall.EISDIR)
+	}
+	if err := FS.log("fileread", h.name, ""); err != nil {
+		return 0, err
 	}
 	if h.off >= len(h.node.Data) {
 		return 0, io.EOF
